@@ -1,0 +1,57 @@
+//go:build verif
+
+package tls
+
+import (
+	"net"
+	"sync"
+)
+
+// Server-side verification hooks (build tag `verif`). A hook set is registered for the
+// underlying net.Conn of a *server* connection; client connections never have one.
+
+type verifServerHooks struct {
+	// RewriteHandshake may replace an outgoing handshake message (before transcript hashing
+	// and encryption). Return the input to leave it unchanged.
+	RewriteHandshake func(data []byte) []byte
+	// LegacyVersionOnly negotiates from ClientHello.legacy_version, ignoring supported_versions.
+	LegacyVersionOnly bool
+	// SuppressDowngradeCanary leaves the ServerHello random fully random on a downgrade.
+	SuppressDowngradeCanary bool
+	// ForceSuiteTLS13 selects this TLS 1.3 suite when the client offered it.
+	ForceSuiteTLS13 uint16
+	// TolerateCookieEcho accepts a cookie extension in the second ClientHello.
+	TolerateCookieEcho bool
+}
+
+// VerifServerHooks is the exported name of the hook set.
+type VerifServerHooks = verifServerHooks
+
+var (
+	verifHookMu  sync.Mutex
+	verifHookTab = map[net.Conn]*verifServerHooks{}
+)
+
+// VerifSetServerHooks registers (or, with nil, removes) hooks for the server connection that
+// will be created over conn.
+func VerifSetServerHooks(conn net.Conn, h *VerifServerHooks) {
+	verifHookMu.Lock()
+	defer verifHookMu.Unlock()
+	if h == nil {
+		delete(verifHookTab, conn)
+	} else {
+		verifHookTab[conn] = h
+	}
+}
+
+func verifServerHook(c *Conn) *verifServerHooks {
+	if c == nil || c.isClient {
+		return nil
+	}
+	verifHookMu.Lock()
+	defer verifHookMu.Unlock()
+	return verifHookTab[c.conn]
+}
+
+// VerifSetForceDowngradeCanary sets the package's testingOnlyForceDowngradeCanary switch.
+func VerifSetForceDowngradeCanary(v bool) { testingOnlyForceDowngradeCanary = v }
